@@ -644,6 +644,7 @@ func Run(c *core.Ctx) core.FinishOpts {
 
 	// random depth-3 trees
 	nRnd := c.Pick(5000, 200000)
+	whereSample := c.Pick(9, 3)
 	rng := c.Rng("trees")
 	rnd := make([]*tree, nRnd)
 	for i := range rnd {
@@ -656,9 +657,10 @@ func Run(c *core.Ctx) core.FinishOpts {
 			if only != "" && only != id {
 				continue
 			}
-			// random trees: the WHERE form with literal operands covers 9 of the 27 literal
-			// assignments (rotating with the tree index); the select form covers all 27
-			j.checkTree(id, t, s, (i+k)%4, 9, i)
+			// random trees: the WHERE form with literal operands covers 9 (quick) / 3 (thorough, 40x
+			// more trees) of the 27 literal assignments, rotating with the tree index; the select
+			// form covers all 27
+			j.checkTree(id, t, s, (i+k)%4, whereSample, i)
 		}
 		c.Count("trees/random_depth3", 1)
 		if i%997 == 0 {
@@ -673,13 +675,17 @@ func Run(c *core.Ctx) core.FinishOpts {
 		cliLeg(c, only)
 	}
 
+	floor := c.Pick(8000, 200000)
+	if only != "" {
+		floor = 0 // a single replayed case
+	}
 	return core.FinishOpts{
 		Level: "exploration",
 		Rule: "boolean trees over operands a,b,c and {AND, OR, NOT, IS NULL, IS NOT NULL}: exhaustive to depth 2, seeded random at depth 3; each under all 27 assignments " +
 			"(8 for non-nullable columns) per supply (nullable column / non-nullable column / literal / comparison over a nullable Int column, per operand), as select expression and as WHERE; " +
 			"non-trivial = at least one operator and a non-constant truth table over the evaluated assignments; distinct by (supply, tree). " +
 			"Strict-function cases: non-trivial = a NULL in some argument position; distinct by (function, argument types, nullable positions, NULL position)",
-		Floor:       c.Pick(8000, 200000),
+		Floor:       floor,
 		Assumptions: []string{"oracle: own Kleene evaluator (30 lines)", "memdb tables conform to their declared schemas", "pipeline wiring copied in shape from cmd/root.go (nodeh.Plan)", "Go toolchain"},
 		Exhaustive:  true,
 	}
